@@ -23,12 +23,11 @@ class LogStream(io.BytesIO):
             self.bad_ops.append('write-not-at-end')
         return super(LogStream, self).write(b)
 
-    def seek(self, *a):
-        self.bad_ops.append('seek')
-        return super(LogStream, self).seek(*a)
-
     def truncate(self, *a):
-        self.bad_ops.append('truncate')
+        # repositioning alone is harmless (a write that is not at the end is what counts); shrinking is not
+        size = a[0] if a and a[0] is not None else self.tell()
+        if size < len(self.getbuffer()):
+            self.bad_ops.append('truncate')
         return super(LogStream, self).truncate(*a)
 
 
